@@ -80,8 +80,21 @@ def ob_merge(dt1, dt2, n, m, second=None):
     (Nf, Nd, g), (Mf, Md, _), (uf, ud, _) = cv['N'][0], cv['M'][0], cv['u'][0]
     c = J.match_count(ac, la, bc, lb)
     LA, LB = z3.SignExt(32, la), z3.SignExt(32, lb)
-    viol = lor(lnot(g) if g is not True else False,
-               Nd.z3() != LA, Md.z3() != LB, ud.z3() != LA + LB - c)
+    defs_wrong = lor(Nd.z3() != LA, Md.z3() != LB, ud.z3() != LA + LB - c)
+    # paths on which the kernel is not reached at all (an early return in the Python layer): there the returned value
+    # itself must be the spec distance of the two arrays
+    not_reached = lnot(g) if g is not True else False
+    if not_reached is False:
+        early_wrong = False
+    else:
+        ret = out.ret
+        if isinstance(ret, CVal) and ret.ctype.kind == 'float':
+            r64 = ret.z3() if ret.ctype.bits == 64 else z3.fpFPToFP(RNE, ret.z3(), z3.Float64())
+            spec64 = z3.fpFPToFP(RNE, J.dist_fp(LA, LB, LA + LB - c), z3.Float64())
+            early_wrong = lor(out.raised, z3.Not(z3.fpEQ(r64, spec64)))
+        else:
+            early_wrong = True
+    viol = lor(land(g, defs_wrong), land(not_reached, early_wrong))
     pre = pa + pb
     return decide(f'merge {dt1}x{dt2} n<={n} m<={m}', pre, viol, ks, arrays_extract(ac, la, bc, lb, dt1, dt2), TO, second=second, unwind_is_violation=True,
                   reach_goals=[('both-nonempty-with-common', z3.And(la == n, lb == m, c >= 1) if n and m else True),
